@@ -3,7 +3,7 @@ the iterable is resolved BEFORE the loop's own variables are declared, as the co
 UNIT = dict(
   name='resolverd',
   properties=['C02', 'C15'],
-  items=[('laythe_vm/src/compiler/resolver.rs', [("impl<'a, 'src> Resolver<'a, 'src>", ['scope', 'for_', 'while_', 'map', 'call', 'ternary', 'binary', 'unary', 'index', 'assign', 'send', 'assign_binary', 'launch', 'return_', 'raise', 'if_'])])],
+  items=[('laythe_vm/src/compiler/resolver.rs', [("impl<'a, 'src> Resolver<'a, 'src>", ['scope', 'for_', 'while_', 'map', 'call', 'ternary', 'binary', 'unary', 'index', 'assign', 'send', 'assign_binary', 'launch', 'return_', 'raise', 'if_', 'collection', 'interpolation', 'channel'])])],
   rewrites=[
     ('R5', 'kind:implhdr', dict(pat=r"^impl<'a, 'src> Resolver<'a, 'src> \{", rep='impl Resolver {', regex=True, count=1)),
     ('R5', 'Resolver::*', dict(pat=r"<'src>", rep='', regex=True, optional=True)),
@@ -23,6 +23,11 @@ UNIT = dict(
     ('R13', 'Resolver::map', dict(pat=r'(self\.expr\(value\);\s*)\}', rep=r'\1  verif_i += 1;\n    }', regex=True, optional=True)),
     ('R13', 'Resolver::call', dict(pat=r'for (\w+) in &mut call\.args \{', rep=r'let mut verif_i: usize = 0;\n    while verif_i < call.args.len() {\n      let \1 = &call.args[verif_i];', regex=True, count=1)),
     ('R13', 'Resolver::call', dict(pat=r'(self\.expr\(expr\);\s*)\}', rep=r'\1  verif_i += 1;\n    }', regex=True, count=1)),
+    ('R13', 'Resolver::collection', dict(pat=r'for (\w+) in list\.items\.iter_mut\(\) \{', rep=r'let mut verif_i: usize = 0;\n    while verif_i < list.items.len() {\n      let \1 = &list.items[verif_i];', regex=True, count=1)),
+    ('R13', 'Resolver::collection', dict(pat=r'(self\.expr\(item\);\s*)\}', rep=r'\1  verif_i += 1;\n    }', regex=True, count=1)),
+    ('R13', 'Resolver::interpolation', dict(pat=r'for (\w+) in interpolation\.segments\.iter_mut\(\) \{', rep=r'let mut verif_i: usize = 0;\n    while verif_i < interpolation.segments.len() {\n      let \1 = &interpolation.segments[verif_i];', regex=True, count=1)),
+    ('R13', 'Resolver::interpolation', dict(pat=r'(?s)(let segment = &interpolation\.segments\[verif_i\];.*?)(\n    \})', rep=r'\1\n      verif_i += 1;\2', regex=True, count=1)),
+    ('R6', 'Resolver::channel', dict(pat='if let Some(expr) = &mut channel.expr {', rep='if let Some(expr) = &channel.expr {', count=1)),
   ],
   assumption_ids=['A-resolver'],
 )
